@@ -79,6 +79,10 @@ func (e *Engine) storeRoot(addr ssa.Value, fn *ssa.Function, prefix string) (str
 	ks := e.keySorts
 	switch x := addr.(type) {
 	case *ssa.FieldAddr:
+		// a field (path) of an object a parameter points to: keep the path for a precise frame
+		if path, pi, ok := paramFieldPath(x, fn); ok {
+			return fmt.Sprintf("PF:%d:%s", pi, path), x.Type().Underlying().(*types.Pointer).Elem()
+		}
 		return e.storeRoot(x.X, fn, prefix)
 	case *ssa.IndexAddr:
 		if sl, ok := x.X.Type().Underlying().(*types.Slice); ok {
@@ -124,9 +128,13 @@ func (e *Engine) storeRoot(addr ssa.Value, fn *ssa.Function, prefix string) (str
 
 func (e *Engine) storeTarget(addr ssa.Value, fr *frame, names ModSet) {
 	name, t := e.storeRoot(addr, fr.fn, fr.prefix)
-	if strings.HasPrefix(name, "P:") {
+	if strings.HasPrefix(name, "P:") || strings.HasPrefix(name, "PF:") {
 		var i int
-		fmt.Sscanf(name, "P:%d", &i)
+		if strings.HasPrefix(name, "PF:") {
+			fmt.Sscanf(name, "PF:%d:", &i)
+		} else {
+			fmt.Sscanf(name, "P:%d", &i)
+		}
 		e.paramTarget(fr, i, names)
 		return
 	}
@@ -188,10 +196,12 @@ func (e *Engine) callMods(c *ssa.CallCommon, fr *frame) ModSet {
 	}
 	for k, t := range ms {
 		switch {
-		case strings.HasPrefix(k, "P:") || strings.HasPrefix(k, "PE:"):
+		case strings.HasPrefix(k, "P:") || strings.HasPrefix(k, "PE:") || strings.HasPrefix(k, "PF:"):
 			var i int
 			if strings.HasPrefix(k, "PE:") {
 				fmt.Sscanf(k, "PE:%d", &i)
+			} else if strings.HasPrefix(k, "PF:") {
+				fmt.Sscanf(k, "PF:%d:", &i)
 			} else {
 				fmt.Sscanf(k, "P:%d", &i)
 			}
@@ -200,9 +210,13 @@ func (e *Engine) callMods(c *ssa.CallCommon, fr *frame) ModSet {
 				continue
 			}
 			name, rt := e.storeRoot(argVals[i], fr.fn, fr.prefix)
-			if strings.HasPrefix(name, "P:") {
+			if strings.HasPrefix(name, "P:") || strings.HasPrefix(name, "PF:") {
 				var j int
-				fmt.Sscanf(name, "P:%d", &j)
+				if strings.HasPrefix(name, "PF:") {
+					fmt.Sscanf(name, "PF:%d:", &j)
+				} else {
+					fmt.Sscanf(name, "P:%d", &j)
+				}
 				e.paramTarget(fr, j, res)
 			} else {
 				res[name] = rt
@@ -284,11 +298,15 @@ func (e *Engine) modsetOf(fn *ssa.Function) ModSet {
 					}
 				}
 				for k, t := range ms {
-					if strings.HasPrefix(k, "P:") || strings.HasPrefix(k, "PE:") {
+					if strings.HasPrefix(k, "P:") || strings.HasPrefix(k, "PE:") || strings.HasPrefix(k, "PF:") {
 						var i int
 						elems := strings.HasPrefix(k, "PE:")
+						fpath := ""
 						if elems {
 							fmt.Sscanf(k, "PE:%d", &i)
+						} else if strings.HasPrefix(k, "PF:") {
+							fmt.Sscanf(k, "PF:%d:", &i)
+							fpath = k[strings.Index(k[3:], ":")+4:]
 						} else {
 							fmt.Sscanf(k, "P:%d", &i)
 						}
@@ -297,8 +315,19 @@ func (e *Engine) modsetOf(fn *ssa.Function) ModSet {
 							continue
 						}
 						name, rt := e.storeRoot(argVals[i], fn, "")
-						if strings.HasPrefix(name, "P:") && elems {
-							name = "PE:" + name[2:]
+						switch {
+						case elems:
+							if strings.HasPrefix(name, "P:") {
+								name = "PE:" + name[2:]
+							} else if sl, ok := argVals[i].Type().Underlying().(*types.Slice); ok {
+								name, rt = "E:"+e.keySorts.typeKey(sl.Elem()), sl.Elem()
+							}
+						case fpath != "" && strings.HasPrefix(name, "P:"):
+							name = "PF:" + name[2:] + ":" + fpath
+							rt = t
+						case fpath != "" && strings.HasPrefix(name, "PF:"):
+							name = name + "." + fpath
+							rt = t
 						}
 						add(name, rt)
 					} else {
@@ -469,4 +498,29 @@ func (e *Engine) debugAccessors(name string) {
 			}
 		}
 	}
+}
+
+
+// paramFieldPath: addr = &param.f1.f2... (fields only) -> "f1.f2", param index.
+func paramFieldPath(fa *ssa.FieldAddr, fn *ssa.Function) (string, int, bool) {
+	var fields []string
+	var cur ssa.Value = fa
+	for {
+		f, ok := cur.(*ssa.FieldAddr)
+		if !ok {
+			break
+		}
+		fields = append([]string{fmt.Sprint(f.Field)}, fields...)
+		cur = f.X
+	}
+	p, ok := cur.(*ssa.Parameter)
+	if !ok {
+		return "", 0, false
+	}
+	for i, q := range fn.Params {
+		if q == p {
+			return strings.Join(fields, "."), i, true
+		}
+	}
+	return "", 0, false
 }
